@@ -2,8 +2,9 @@
 from props_common import COMMON_NOTE
 
 CONF = dict(
-    families=[('tx', 300, 5000)],
-    compare=['ser', 'txid', 'wtxid', 'hasw'],
+    families=[('tx', 300, 5000), ('sha', 60, 800)],
+    coq_eval=[dict(family='sha', key='sha', imports='Lib.Sha256', quick=30, thorough=200, fn='sha256')],
+    compare=['ser', 'txid', 'wtxid', 'hasw', 'sha', 'dsha', 'mid'],
     trusted=['modelled by hand: TxHash, WitnessHash, HasWitness, serialize; SHA-256 is executable Gallina (Lib/Sha256.v), collision freedom enters only as a hypothesis (injective H) of the digest theorems'],
     assumptions=['ideal hash: the two digest-level sensitivity theorems take an injective H as hypothesis; frame theorems and serialization-level sensitivity need none'],
     explanation='theorems: witness-only changes leave the hashed serialization unchanged; equal hashed serializations force equal covered fields (codec injectivity); wtxid = txid without witness data. K: bit-exact txid/wtxid (executable SHA-256). S: the whole single-field perturbation matrix on the implementation.',
